@@ -38,6 +38,9 @@ HOW = {
     "C09-m9": "after adding earlier expand_decay_modes calls and in-place edits of returned chains before the chains are compared (empty stable set always included)",
     "C11-m9": "after adding None as a top-level and a nested metadata value",
     "C11-m10": "after adding strings padded with blanks / tabs / line ends to the constructors",
+    "C05-m11": "after adding Define'd names with inner hyphens / slashes (dm-Bs, q/p_B-mix) to the textual family",
+    "C09-m12": "after passing one list / set object that the caller edits in place between consecutive calls as the stable set",
+    "C17-m11": "after adding trees and texts in which one name occurs both bare and written with its own decay (either order)",
     "C17-m10": "after letting the coherent-sum option stand before, between or after the decay lines",
     "C09-m8": "after adding the re-parse history (same parser parsed before with the other include_ccdecays setting and queried)",
 }
